@@ -54,57 +54,63 @@ def _boxes(tier):
         B.append(kw)
 
     if tier == "quick":
-        # Gaussian: all hbar at every d; cutoff (only used by the probability interfaces) paired with hbar
+        # sized for <= ~4 CPU-minutes in total: all four hbar values and all cutoffs 1..5 appear, but depth >= 2 only in a few boxes
         for i, h in enumerate(HBARS):
             c = (3, 2, 4, 5)[i]
-            box(fam="bfs", kind="gaussian", d=1, cutoff=c, hbar=h, depth=3, full=2, meas=0)
-            box(fam="bfs", kind="gaussian", d=2, cutoff=c if c < 5 else 3, hbar=h, depth=2, full=1, meas=1, chunks=2)
-            box(fam="bfs", kind="gaussian", d=3, cutoff=(2, 1, 3, 2)[i], hbar=h, depth=1, full=1, meas=0)
-        box(fam="bfs", kind="gaussian", d=3, cutoff=2, hbar=3.7, depth=2, full=0, meas=0, roots=["vac", "thermal"], chunks=6)
-        box(fam="bfs", kind="gaussian", d=3, cutoff=2, hbar=0.5, depth=2, full=0, meas=0, roots=["mixed"], chunks=3)
-        # Fock family: cutoffs 1..5
+            box(fam="bfs", kind="gaussian", d=1, cutoff=c, hbar=h, depth=3 if i == 0 else 2, full=2, meas=0)
+            if i == 3:
+                box(fam="bfs", kind="gaussian", d=2, cutoff=3, hbar=h, depth=2, full=1, meas=1, chunks=2)
+            else:
+                box(fam="bfs", kind="gaussian", d=2, cutoff=c, hbar=h, depth=1, full=1, meas=1)
+            box(fam="bfs", kind="gaussian", d=3, cutoff=(2, 1, 2, 2)[i], hbar=h, depth=1, full=1 if i % 2 == 0 else 0, meas=0,
+                roots=["vac", "mixed"] if i % 2 else ["thermal", "mixed"])
         for kind in ("purefock", "fock", "passive"):
             for c in (1, 2, 3, 4, 5):
                 h = HBARS[c % 4]
                 box(fam="bfs", kind=kind, d=1, cutoff=c, hbar=h, depth=2, full=2, meas=1, post=False)
-                box(fam="bfs", kind=kind, d=2, cutoff=c, hbar=h, depth=2 if c <= 3 else 1, full=1, meas=1, post=(c <= 3))
+                if c == 3 and kind != "fock":
+                    box(fam="bfs", kind=kind, d=2, cutoff=c, hbar=h, depth=2, full=1, meas=1, post=True, roots=["n11", "sup"])
+                    box(fam="bfs", kind=kind, d=2, cutoff=c, hbar=h, depth=1, full=1, meas=1, post=False, roots=["n00", "n10", "n02"])
+                else:
+                    box(fam="bfs", kind=kind, d=2, cutoff=c, hbar=h, depth=1, full=1, meas=1, post=(c <= 2), roots="all" if c <= 3 else "vac+1")
                 if c <= 4:
-                    box(fam="bfs", kind=kind, d=3, cutoff=c, hbar=h, depth=1, full=1 if c <= 3 else 0, meas=1 if c <= 3 else 0, post=False,
-                        roots="vac+1" if c >= 3 else "all")
-        box(fam="passive_loss", d=2, depth=2, levels=("small", "small"))
-        box(fam="passive_loss", d=3, depth=1, levels=("small",))
-        for d in (1, 2, 3):
+                    box(fam="bfs", kind=kind, d=3, cutoff=c, hbar=h, depth=1, full=1 if c <= 2 else 0, meas=0, post=False, roots="vac+1")
+        box(fam="passive_loss", d=2, depth=2, levels=("small", "tiny"))
+        box(fam="passive_loss", d=3, depth=1, levels=("tiny",))
+        for d in (1, 2):
             box(fam="fermi", d=d, depth=2, meas=1)
-        box(fam="fermi", d=4, depth=1, meas=0)
+        box(fam="fermi", d=3, depth=1, meas=1)
     else:
         for i, h in enumerate(HBARS):
             for c in (1, 2, 3, 4, 5):
-                box(fam="bfs", kind="gaussian", d=1, cutoff=c, hbar=h, depth=3 if c in (2, 4) else 2, full=2, meas=0, level="thorough")
+                box(fam="bfs", kind="gaussian", d=1, cutoff=c, hbar=h, depth=3 if c == 2 else 2, full=2, meas=0, level="thorough")
             for c in (2, 3, 5):
                 box(fam="bfs", kind="gaussian", d=2, cutoff=c, hbar=h, depth=2, full=1 if c < 5 else 0, meas=1, level="thorough", chunks=4)
-            box(fam="bfs", kind="gaussian", d=3, cutoff=(3, 2, 4, 3)[i], hbar=h, depth=2, full=1, meas=1, level="quick", chunks=12)
+            if i % 2 == 0:
+                box(fam="bfs", kind="gaussian", d=3, cutoff=(3, 2, 4, 3)[i], hbar=h, depth=2, full=1, meas=1, level="quick", chunks=12)
+            else:
+                box(fam="bfs", kind="gaussian", d=3, cutoff=(3, 2, 4, 3)[i], hbar=h, depth=1, full=1, meas=1, level="thorough", chunks=2)
             box(fam="bfs", kind="gaussian", d=4, cutoff=2, hbar=h, depth=1, full=1 if i % 2 else 0, meas=0, level="quick", roots=["vac", "mixed"], chunks=2)
-        box(fam="bfs", kind="gaussian", d=2, cutoff=3, hbar=0.5, depth=3, full=0, meas=0, level="quick", roots=["vac", "thermal"], chunks=12)
         for kind in ("purefock", "fock", "passive"):
             for c in (1, 2, 3, 4, 5):
                 h = HBARS[c % 4]
                 box(fam="bfs", kind=kind, d=1, cutoff=c, hbar=h, depth=3, full=3, meas=1, post=True, level="thorough")
                 box(fam="bfs", kind=kind, d=1, cutoff=c, hbar=HBARS[(c + 2) % 4], depth=2, full=2, meas=1, post=False, level="thorough")
-                box(fam="bfs", kind=kind, d=2, cutoff=c, hbar=h, depth=2, full=1, meas=1, post=(c <= 3), level="thorough" if c <= 2 else "quick", chunks=3)
+                box(fam="bfs", kind=kind, d=2, cutoff=c, hbar=h, depth=2 if c <= 3 else 1, full=1, meas=1, post=(c <= 3), level="thorough" if c <= 2 else "quick", chunks=2)
                 if c <= 2:
-                    box(fam="bfs", kind=kind, d=3, cutoff=c, hbar=h, depth=2, full=1, meas=1, post=True, chunks=4)
+                    box(fam="bfs", kind=kind, d=3, cutoff=c, hbar=h, depth=2, full=1, meas=1, post=True, roots="vac+1", chunks=4)
                 elif c == 3:
                     box(fam="bfs", kind=kind, d=3, cutoff=c, hbar=h, depth=1, full=1, meas=1, post=False)
                 else:
                     box(fam="bfs", kind=kind, d=3, cutoff=c, hbar=h, depth=1, full=1, meas=0, post=False, roots="vac+1")
                 if c <= 3:
                     box(fam="bfs", kind=kind, d=4, cutoff=c, hbar=h, depth=1, full=0, meas=0, roots="vac+1")
-        box(fam="passive_loss", d=2, depth=2, levels=("mid", "mid"))
-        box(fam="passive_loss", d=3, depth=2, levels=("small", "small"))
+        box(fam="passive_loss", d=2, depth=2, levels=("mid", "small"))
+        box(fam="passive_loss", d=3, depth=2, levels=("small", "tiny"))
         box(fam="passive_loss", d=4, depth=1, levels=("small",))
         for d in (1, 2, 3):
             box(fam="fermi", d=d, depth=3 if d <= 2 else 2, meas=2 if d <= 2 else 1)
-        box(fam="fermi", d=4, depth=2, meas=1)
+        box(fam="fermi", d=4, depth=1, meas=1)
         box(fam="fermi", d=5, depth=1, meas=0)
     return B
 
@@ -225,6 +231,9 @@ def run(ctx, builddir):
     ctx.assume("PassiveState: norm / probability sums are allowed 1e-11 (permanent-based tables), validate() is only demanded on lossless, not "
                "post-selected states (validate() documents that it rejects a non-unitary transmission matrix)")
     ctx.assume("fermionic Gaussian probabilities are sqrt(det(.)): upper range tolerance 1e-8, sum 1e-6 (see C17)")
+    if ctx.tier == "quick":
+        ctx.assume("quick tier is sized for <= ~4 CPU-minutes: all hbar in {0.5, 1, 2, 3.7} and all cutoffs 1..5 occur, depth 3 only at d=1, depth 2 at d<=2 in a few boxes, "
+                   "d=3 at depth 1, fermionic d<=3; the thorough tier (measured 54 CPU-minutes) carries the deeper boxes, d=4 and fermionic d=4,5")
     ctx.assume("exceptions (unsupported cells, refusals, crashes such as PureFockSimulator after an Attenuator) are counted and not reported: C01 / C13 own them")
     core.pmap(ctx, "mc.checks.c08", "work", items, builddir)
     c = ctx.counters
@@ -295,6 +304,10 @@ class _Rep:
                        "reason": "".join(ch for ch in reason.split(".")[0].lower() if ch.isalpha() or ch == " ").strip().replace(" ", "_")[:60]}
             elif kind == "gaussian":
                 sig["hbar_class"] = "hbar=2" if float(self.base["hbar"]) == 2.0 else "hbar!=2"
+            elif type(state).__name__ == "PassiveState":
+                # the defect sits in the probability routine selected by the configuration, not in the last instruction
+                sig.pop("after")
+                sig.update(K.passive_input_class(state))
             case = dict(self.base)
             case.update(case_extra)
             text = "%s: %s [%s]" % (SIM_CLASS[kind], msg, _describe(case))
